@@ -1188,7 +1188,7 @@ def build_sequence(spec, QK):
     o1, o2 = spec["o1"], spec["o2"]
     if o2:
         thunk = lambda: seq.hessian(o1, o2)(**values) if values else seq.hessian(o1, o2)()
-        pairs = [sorted([x, y]) for x in o1 for y in o2 if x <= y]
+        pairs = sorted({tuple(sorted((x, y))) for x in o1 for y in o2})   # Sequence.hessian (after fix f14f799)
     elif o1:
         thunk = lambda: seq.jacobian(o1)(**values) if values else seq.jacobian(o1)()
         pairs = []
